@@ -99,12 +99,8 @@ func rulesC15(c *Ctx) {
 							continue
 						}
 						// failing check returns an error
-						if ifs, ok := prm.Enclosing(call, func(x ast.Node) bool { _, ok := x.(*ast.IfStmt); return ok }).(*ast.IfStmt); ok {
-							for _, st := range ifs.Body.List {
-								if ret, ok := st.(*ast.ReturnStmt); ok && len(ret.Results) == 2 && !isNilIdent(ret.Results[1]) {
-									has[chk] = true
-								}
-							}
+						if prm.failureReturnsError(call) {
+							has[chk] = true
 						}
 					}
 				}
